@@ -354,6 +354,15 @@ def fold_codec(ck: Checker, R: str):
         outs = [rnd.choice(labels) for _ in range(rnd.randint(0, 3))]
         stored = spec if rnd.random() < 0.5 else [x for x in spec if x[1] == 'INPUT'] + [x for x in spec if x[1] != 'INPUT'][::-1]
         cases.append((spec, outs, stored, rnd.random() < 0.3, inside))
+    # stored users-first with a not-yet-defined operand that is shared by two users / listed twice by one
+    for spec, outs in (
+        ([('a', 'INPUT', ()), ('b', 'INPUT', ()), ('s', 'OR', ('a', 'b')), ('q', 'NOT', ('s',)), ('t', 'AND', ('s', 'q'))], ['t']),
+        ([('a', 'INPUT', ()), ('b', 'INPUT', ()), ('s', 'NAND', ('a', 'b')), ('g', 'XOR', ('s', 's')), ('h', 'OR', ('g', 's'))], ['h', 'g']),
+        ([('a', 'INPUT', ()), ('s', 'NOT', ('a',)), ('p', 'AND', ('s', 'a')), ('q', 'OR', ('s', 'p')), ('r', 'XOR', ('q', 'p'))], ['r', 's', 'r']),
+    ):
+        if all(t in fmt and arity[t] == len(ops) for _, t, ops in spec if t != 'INPUT'):
+            cases.append((spec, outs, [x for x in spec if x[1] == 'INPUT'] + [x for x in spec if x[1] != 'INPUT'][::-1], False, True))
+            cases.append((spec, outs, spec, True, True))
     probs = []
     n_rt = n_ref = 0
     from .compose_fold import state_values
